@@ -117,6 +117,7 @@ pub fn kruger(xs: &[f64], ys: &[f64]) -> Reference {
 /// knot sequences: strictly increasing abscissae by construction
 pub fn knots_strategy(tier: Tier) -> BoxedStrategy<Case> {
     let nmax = tier.pick(10usize, 48usize);
+    let nlong = tier.pick(70usize, 130usize);
     let offsets = prop_oneof![
         4 => Just(0.0),
         1 => gen::from_table(&[1e3, -1e3, 1e6, -1e6, 1e9, -1e9]),
@@ -132,9 +133,9 @@ pub fn knots_strategy(tier: Tier) -> BoxedStrategy<Case> {
         // integers
         2 => vec((1i32..=5).prop_map(|i| i as f64), 2..48),
     ];
-    let pattern = 0u8..8;
-    (3usize..=nmax, offsets, steps, pattern, vec(gen::moderate(12), 48), (prop_oneof![4 => -20i32..=20, 1 => -250i32..=250], gen::scaled(-6, 6), gen::moderate(8)))
-        .prop_map(|(n, x0, steps, pat, rnd, (scale_e, slope, icpt))| {
+    let pattern = 0u8..10;
+    (prop_oneof![9 => 3usize..=nmax, 1 => (nmax + 1)..=nlong], offsets, steps, pattern, vec(gen::moderate(12), 48), (prop_oneof![4 => -20i32..=20, 1 => -250i32..=250], gen::scaled(-6, 6), gen::moderate(8)), gen::common_scale(100))
+        .prop_map(|(n, x0, steps, pat, rnd, (scale_e, slope, icpt), xscale)| {
             let mut xs = Vec::with_capacity(n);
             let mut x = x0;
             xs.push(x);
@@ -144,26 +145,39 @@ pub fn knots_strategy(tier: Tier) -> BoxedStrategy<Case> {
                 x = if nx > x { nx } else { next_up(x) };
                 xs.push(x);
             }
+            // common abscissa scale (exact power of two): the construction is homogeneous in x as well
+            if xscale != 1.0 && xs.iter().all(|v| (v * xscale).is_finite() && (*v == 0.0 || (v * xscale).abs() > 1e-280)) {
+                for v in xs.iter_mut() {
+                    *v *= xscale;
+                }
+            }
             let sc = 2.0f64.powi(scale_e);
             let ys: Vec<f64> = (0..n)
                 .map(|i| {
                     let r = rnd[i % rnd.len()];
                     match pat {
-                        0 => rnd[..=i].iter().map(|v| v.abs() + 0.125).sum::<f64>() * sc, // monotone increasing
+                        0 => (0..=i).map(|k| rnd[k % rnd.len()].abs() + 0.125).sum::<f64>() * sc, // monotone increasing
                         1 => (if i % 2 == 0 { r.abs() } else { -r.abs() }) * sc,            // oscillating
-                        2 => rnd[i / 2 * 2 % rnd.len()] * sc,                                // plateaus (repeated y)
+                        2 => rnd[(i / 2 * 2) % rnd.len()] * sc,                                // plateaus (repeated y)
                         3 => slope * xs[i] + icpt + r * 1e-15 * (slope * xs[i]).abs(),      // nearly collinear
                         4 => {
                             // exactly collinear dyadic line when xs are moderate dyadics
                             let s2 = (slope * 8.0).round() / 8.0;
                             s2 * xs[i] + icpt
                         }
-                        5 => -(rnd[..=i].iter().map(|v| v.abs()).sum::<f64>()) * sc, // monotone non-increasing with possible flats
+                        5 => -((0..=i).map(|k| rnd[k % rnd.len()].abs()).sum::<f64>()) * sc, // monotone non-increasing with possible flats
                         6 => {
                             // single peak
                             let mid = n / 2;
                             let dd = (i as i64 - mid as i64).abs() as f64;
                             (10.0 - dd * (1.0 + r.abs() * 0.1)) * sc
+                        }
+                        8 | 9 => {
+                            // few distinct ordinates incl. signed zeros: plateaus of three and more equal values,
+                            // staircases, flat runs of +0.0 / -0.0
+                            let lv = [0.0, -0.0, 1.0, -1.0, 0.5];
+                            let k = ((r.abs() * 8.0) as usize + i / 3) % if pat == 8 { 5 } else { 2 };
+                            lv[k] * if pat == 8 { sc } else { 1.0 }
                         }
                         _ => r * sc,
                     }
@@ -260,7 +274,7 @@ impl Prop for C04 {
         "C04"
     }
     fn rule(&self) -> String {
-        "case = knot sequence of 3..=10 (thorough 48) knots; abscissae strictly increasing by construction (x_(i+1) = max(x_i+step, next_up(x_i))): offsets {0, ±1e3, ±1e6, ±1e9, random}, steps uniform / wild 2^±10 / one-ulp / integer; ordinates monotone, oscillating, plateaued, nearly collinear (line + few-ulp noise), exactly collinear, non-increasing with flats, single peak, random; scales 2^±20 (4/5) or 2^±250 (1/5). Oracle: the exact Kruger construction in 384-bit arithmetic with exact sign decisions, and its magnitude shadows (every subtraction replaced by an addition of magnitudes). Checked: (1) n-1 pieces, end_i bit-identical to x_(i+1); (2) every returned cubic, evaluated EXACTLY at both of its knots, is within 64u·(Ā+B̄|x|+C̄x²+D̄|x|³) of the ordinate, and through Evaluate::evaluate with the C01 bound added; (3) at every interior knot the exact derivatives of the two adjacent returned cubics agree with each other and with the exact knot slope (harmonic mean or 0), at the end knots with 3/2·Δ - 1/2·m, within 64u·(B̄+2C̄|x|+3D̄x²); the same through derivative().evaluate(). Domain: every intermediate of the construction within 2^±900 (else counted as excluded). Non-trivial: not exactly collinear and >= 4 knots.".into()
+        "case = knot sequence of 3..=10 (thorough 48) knots; abscissae strictly increasing by construction (x_(i+1) = max(x_i+step, next_up(x_i))): offsets {0, ±1e3, ±1e6, ±1e9, random}, steps uniform / wild 2^±10 / one-ulp / integer; ordinates monotone, oscillating, plateaued, nearly collinear (line + few-ulp noise), exactly collinear, non-increasing with flats, single peak, few distinct ordinates (plateaus of >=3 equal values, runs of +0.0/-0.0), random; abscissae additionally times a common power of two 2^k (k in ±100, 30% of cases); 1 case in 10 has 11..70 (thorough ..130) knots; scales 2^±20 (4/5) or 2^±250 (1/5). Oracle: the exact Kruger construction in 384-bit arithmetic with exact sign decisions, and its magnitude shadows (every subtraction replaced by an addition of magnitudes). Checked: (1) n-1 pieces, end_i bit-identical to x_(i+1); (2) every returned cubic, evaluated EXACTLY at both of its knots, is within 64u·(Ā+B̄|x|+C̄x²+D̄|x|³) of the ordinate, and through Evaluate::evaluate with the C01 bound added; (3) at every interior knot the exact derivatives of the two adjacent returned cubics agree with each other and with the exact knot slope (harmonic mean or 0), at the end knots with 3/2·Δ - 1/2·m, within 64u·(B̄+2C̄|x|+3D̄x²); the same through derivative().evaluate(). Domain: every intermediate of the construction within 2^±900 (else counted as excluded). Non-trivial: not exactly collinear and >= 4 knots.".into()
     }
     fn assumptions(&self) -> Vec<String> {
         vec!["K = 64 (DESIGN.md §3.3) is the harness's reading of 'a small multiple of 2^-53 times the magnitudes of the intermediate terms'".into()]
